@@ -23,7 +23,7 @@ def reshape(self, shape, recursive=True):
         shape = tuple(shape)
 
     if shape == self._shape_:
-        return self
+        return self if recursive else self.wod
 
     if shape:
         new_values = np.asarray(self._values_).reshape(shape + self.item)
@@ -55,7 +55,7 @@ def flatten(self, recursive=True):
     """A shallow copy of the object flattened to one dimension."""
 
     if len(self._shape_) < 2:
-        return self
+        return self if recursive else self.wod
 
     count = np.prod(self._shape_)
     return self.reshape((count,), recursive)
@@ -86,7 +86,7 @@ def swap_axes(self, axis1, axis2, recursive=True):
                          % (-len_shape, len_shape, type(self).__name__, axis2))
 
     if a1 == a2:
-        return self
+        return self if recursive else self.wod
 
     new_values = np.swapaxes(self._values_, a1, a2)
 
@@ -152,7 +152,7 @@ def roll_axis(self, axis, start=0, recursive=True, rank=None):
 
     # No need to modify a shapeless object
     if not self._shape_:
-        return self
+        return self if recursive else self.wod
 
     # Add missing axes if necessary
     if len_shape < rank:
@@ -228,7 +228,7 @@ def move_axis(self, source, destination, recursive=True, rank=None):
 
     # No need to modify a shapeless object
     if not self._shape_:
-        return self
+        return self if recursive else self.wod
 
     # Add missing axes if necessary
     if len_shape < rank:
